@@ -300,6 +300,7 @@ type printer struct {
 	prevOpEnd            int
 	needSpaceBeforeDot   int
 	prevRegExpEnd        int
+	prevIdentEscapeEnd   int
 	noLeadingNewlineHere int
 	oldLineStart         int
 	oldLineEnd           int
@@ -445,8 +446,18 @@ func (p *printer) canPrintIdentifierUTF16(name []uint16) bool {
 func (p *printer) printIdentifier(name string) {
 	if p.options.ASCIIOnly {
 		p.js = QuoteIdentifier(p.js, name, p.options.UnsupportedFeatures)
+		p.recordIdentEscapeEnd()
 	} else {
 		p.print(name)
+	}
+}
+
+// An identifier that ends with an escaped non-BMP code point ends with "}",
+// which is not an identifier character. Remember where that is so that a
+// space is printed before a following keyword or identifier.
+func (p *printer) recordIdentEscapeEnd() {
+	if n := len(p.js); n > 0 && p.js[n-1] == '}' {
+		p.prevIdentEscapeEnd = n
 	}
 }
 
@@ -479,6 +490,10 @@ func (p *printer) printIdentifierUTF16(name []uint16) {
 
 		width := utf8.EncodeRune(temp[:], c)
 		p.js = append(p.js, temp[:width]...)
+	}
+
+	if p.options.ASCIIOnly {
+		p.recordIdentEscapeEnd()
 	}
 }
 
@@ -851,7 +866,7 @@ func (p *printer) printSemicolonIfNeeded() {
 }
 
 func (p *printer) printSpaceBeforeIdentifier() {
-	if c, _ := utf8.DecodeLastRune(p.js); js_ast.IsIdentifierContinue(c) || p.prevRegExpEnd == len(p.js) {
+	if c, _ := utf8.DecodeLastRune(p.js); js_ast.IsIdentifierContinue(c) || p.prevRegExpEnd == len(p.js) || p.prevIdentEscapeEnd == len(p.js) {
 		p.print(" ")
 	}
 }
@@ -5017,6 +5032,7 @@ func Print(tree js_ast.AST, symbols ast.SymbolMap, r renamer.Renamer, options Op
 		prevOpEnd:            -1,
 		needSpaceBeforeDot:   -1,
 		prevRegExpEnd:        -1,
+		prevIdentEscapeEnd:   -1,
 		noLeadingNewlineHere: -1,
 		builder:              sourcemap.MakeChunkBuilder(options.InputSourceMap, options.LineOffsetTables, options.ASCIIOnly),
 	}
